@@ -93,6 +93,22 @@ theorem unravel_keys_agree (args : List Key) : unravelKeysPyCall args = unravelK
   | [k] => simp [unravel_key_agree]
   | _ :: _ :: _ => simp
 
+/-- with exception classes: `unravel_key`, `unravel_key_list(keys)` and `unravel_keys(*args)` return the same value
+or raise the *same class* (RuntimeError for an invalid key, TypeError for a bad container / arity) on both paths. -/
+theorem unravel_calls_agree_with_class (k : Key) (a : KeysArg) (args : List Key) :
+    unravelKeyPyE k = unravelKeyCppE k
+      ∧ unravelKeyListPyCallE a = unravelKeyListCppCallE a
+      ∧ unravelKeysPyCallE args = unravelKeysCppCallE args := by
+  have h1 : ∀ k, unravelKeyPyE k = unravelKeyCppE k := fun k => by
+    simp [unravelKeyPyE, unravelKeyCppE, unravel_key_agree]
+  refine ⟨h1 k, ?_, ?_⟩
+  · cases a <;> simp [unravelKeyListPyCallE, unravelKeyListCppCallE, unravelKeyListCppTuple, unravel_key_list_loop_agree]
+  · unfold unravelKeysPyCallE unravelKeysCppCallE
+    match args with
+    | [] => simp
+    | [k] => simp [h1]
+    | _ :: _ :: _ => simp
+
 /-! what the unravellers compute, against the obvious specification (`leaves` = the strings left to right) -/
 
 mutual
